@@ -319,6 +319,13 @@ def run(ctx):
                 for pth in want:
                     r = apply_op(st, ["fetch_paths", [pth]], DDSException)
                     got[pth] = dict(r["paths"]).get(pth) if isinstance(r, dict) else r
+                if o2 != "unit":
+                    # the refused path was never committed: it must not resolve to anything (the dictionary answers 'missing')
+                    r2 = apply_op(st, ["fetch_paths", [p2]], DDSException)
+                    if isinstance(r2, dict) and dict(r2["paths"]).get(p2) is not None:
+                        res.violations.append({"what": "the commit of %s was refused (%s), yet the path resolves to the key %r" % (p2, o2, dict(r2["paths"]).get(p2)),
+                                               "input": {"store": "local+cache" if wrap else "local",
+                                                         "ops": [["sync", [[p1, "k1"]]], ["sync", [[p2, "k2"]]], ["fetch_paths", [p2]]]}, "kf": None})
                 res.evaluations += 1
                 res.count("prefix_related_commits")
                 res.nontrivial("prefix commits %s %s %s" % (p1, p2, wrap))
